@@ -48,6 +48,7 @@ from intervaltree import IntervalTree
 
 import gtirb_rewriting._auxdata as _auxdata
 import gtirb_rewriting._auxdata_offsetmap as _auxdata_offsetmap
+import gtirb_rewriting._verif_hooks as _verif_hooks
 
 from ._modify import (
     ModifyCache,
@@ -673,6 +674,15 @@ class RewritingContext:
             block_delta = actual_block.offset - block.offset
             actual_offset = offset + total_insert_len - block_delta
 
+            _verif_hooks.emit(
+                "before_modify",
+                modify_cache=modify_cache,
+                modification=modification,
+                block=block,
+                offset=offset,
+                actual_block=actual_block,
+                actual_offset=actual_offset,
+            )
             if isinstance(modification, _InsertionOrReplacement):
                 context = InsertionContext(self._module, func, block, offset)
                 if isinstance(modification.patch, Patch):
@@ -707,6 +717,11 @@ class RewritingContext:
                 total_insert_len += (
                     insert_len - modification.scope._replacement_length()
                 )
+                _verif_hooks.emit(
+                    "after_modify",
+                    modify_cache=modify_cache,
+                    modification=modification,
+                )
             elif isinstance(modification, _Deletion):
                 actual_block = delete(
                     modify_cache,
@@ -716,6 +731,11 @@ class RewritingContext:
                     modification.retarget_to_proxy,
                 )
                 total_insert_len -= modification.scope._replacement_length()
+                _verif_hooks.emit(
+                    "after_modify",
+                    modify_cache=modify_cache,
+                    modification=modification,
+                )
 
     def _insert_function_stub(
         self,
@@ -1149,6 +1169,8 @@ class RewritingContext:
                         idx, offset
                     ),
                 )
+
+            _verif_hooks.emit("before_teardown", modify_cache=modify_cache)
 
         if self._symbol_retargets:
             retarget_symbol_uses(
